@@ -34,13 +34,14 @@ def cases(tier, seed):
     yield dict(kind='ids')
     dims = [('ninst', [1, 2]), ('nbeads', [1, 0, 2]), ('nsamples', [2, 1, 3]), ('units', ['mixed', 'all-mef', 'channel', 'none']),
             ('cont', ['int', 'float']), ('plot', [False, True]), ('hist', [False, True]), ('outpath', ['default', 'explicit']),
-            ('nfl', [2, 3]), ('cluster', ['all', 'one'])]
+            ('nfl', [2, 3, 4]), ('cluster', ['all', 'one'])]
     if tier == 'quick':
         cfgs = [dict(ninst=1, nbeads=1, nsamples=2, units='mixed', cont='int', plot=True, hist=True, outpath='default', nfl=2, cluster='all'),
                 dict(ninst=1, nbeads=1, nsamples=1, units='all-mef', cont='int', plot=True, hist=False, outpath='explicit', nfl=3, cluster='all'),
                 dict(ninst=2, nbeads=2, nsamples=3, units='mixed', cont='int', plot=False, hist=True, outpath='explicit', nfl=2, cluster='one'),
                 dict(ninst=1, nbeads=0, nsamples=2, units='channel', cont='float', plot=False, hist=False, outpath='default', nfl=2, cluster='all'),
-                dict(ninst=1, nbeads=1, nsamples=1, units='none', cont='int', plot=True, hist=True, outpath='default', nfl=2, cluster='one')]
+                dict(ninst=1, nbeads=1, nsamples=1, units='none', cont='int', plot=True, hist=True, outpath='default', nfl=2, cluster='one'),
+                dict(ninst=1, nbeads=1, nsamples=1, units='mixed', cont='int', plot=True, hist=False, outpath='default', nfl=4, cluster='all')]
     else:
         cfgs = list(explore.deviations(dims, 1)) + [c for c in explore.deviations(dims, 2) if c['_dev'] == 2 and c['plot'] and (c['nfl'] == 3 or c['hist'])]
     for cfg in cfgs:
@@ -116,8 +117,14 @@ def run_ids(res, d):
         ws3.append(row)
     wb.save(p)
     one = dict(kind='ids')
-    t = ui.read_table(p, 'T', index_col='ID')
-    if list(t.index) != ['a', 'b', 'c'] or [float(x) for x in t['v']] != [1.0, 3.0, 4.5]:
+    try:
+        t = ui.read_table(p, 'T', index_col='ID')
+    except Exception as e:
+        t = None
+        res.violation('ids:empty-rows-refused', 'a sheet with two rows lacking an identifier was refused: %s: %s' % (type(e).__name__, e), one)
+    if t is None:
+        pass
+    elif list(t.index) != ['a', 'b', 'c'] or [float(x) for x in t['v']] != [1.0, 3.0, 4.5]:
         res.violation('ids:empty-not-dropped', 'rows without identifier: read identifiers %r values %r' % (list(t.index), list(t['v'])), one)
     else:
         res.ok('ids:empty-dropped', True)
@@ -126,8 +133,14 @@ def run_ids(res, d):
         res.violation('ids:duplicate-accepted', 'a sheet with duplicated identifiers was read without error', one)
     except ValueError:
         res.ok('ids:duplicate-refused', True)
-    t3 = ui.read_table(p, 'DupNull', index_col='ID')
-    if list(t3.index) != ['a']:
+    try:
+        t3 = ui.read_table(p, 'DupNull', index_col='ID')
+    except Exception as e:
+        t3 = None
+        res.violation('ids:empty-rows-refused', 'a sheet with two rows lacking an identifier was refused: %s: %s' % (type(e).__name__, e), one)
+    if t3 is None:
+        pass
+    elif list(t3.index) != ['a']:
         res.violation('ids:empty-duplicates', 'several rows without identifier: read %r' % list(t3.index), one)
     else:
         res.ok('ids:empty-dropped', True)
